@@ -2,102 +2,60 @@ import TxdbusModel.Proofs.Wire.Rep
 import TxdbusModel.Proofs.Wire.SpecBasic
 import TxdbusModel.Proofs.Wire.Utf8
 /-
-Code = Spec, part 1: the tables generated from marshal.py agree with the specification (alignment,
-dispatch, struct formats, sizes), and the primitives of the code model (`padLenOf`, `pack`,
-`unpackFrom`) compute what the spec's primitives compute.
+Code = Spec, part 1: the primitives of the code model (`padLenOf`, `pack`, `unpackFrom`) compute what the
+spec's primitives compute, for the generated tables.  The comparison of the generated ALIGNMENT table
+with the specification's is in AlignSpec.lean (used by C02 only: the round trip C01 holds for whatever
+alignments the table lists).
 -/
 namespace Txdbus
 namespace Code
 open Gen.Wire (Fn)
 
-/-! ### the generated tables against the specification -/
+/-! ### the generated alignment table, whatever its values -/
 
 /-- The 17 type codes of the specification. -/
 def typeCodes : List Char :=
   ['y', 'b', 'n', 'q', 'i', 'u', 'x', 't', 'd', 's', 'o', 'g', 'a', '(', 'v', '{', 'h']
 
-/-- `dbus_types` is the alignment table of the specification: exactly the 17 type codes (in any order,
-none twice), each with the alignment the specification gives. -/
-theorem alignTable_eq_spec :
-    Gen.Wire.alignTable.length = 17 ∧
-    (∀ c ∈ typeCodes, Gen.Wire.alignTable.lookup c = some (Spec.alignTable c)) ∧
-    ∀ p ∈ Gen.Wire.alignTable, p.1 ∈ typeCodes ∧ Spec.alignTable p.1 = p.2 := by
+/-- The code's padding function `pad[tcode]` computes the padding rule for alignment table `A`. -/
+abbrev PadOK (A : AlignTable) : Prop := ∀ (t : Ty) (x : Nat), padLenOf t.code x = .ok (padLen (A t.code) x)
+
+/-- The generated table `dbus_types` as an alignment table (whatever its entries are). -/
+def genAlign : AlignTable := fun c => (Gen.Wire.alignTable.lookup c).getD 1
+
+/-- Sanity of the generated table, whatever its values: every one of the 17 type codes has an alignment
+between 1 and 8 (so that `padding[...]` has the key). -/
+theorem genAlign_sane : ∀ c ∈ typeCodes, ∃ a, Gen.Wire.alignTable.lookup c = some a ∧ 0 < a ∧ a ≤ 8 := by
   decide
 
-theorem lookup_align (t : Ty) : Gen.Wire.alignTable.lookup t.code = some (Spec.alignTable t.code) := by
-  cases t with
-  | basic c => cases c <;> rfl
-  | _ => rfl
-
-theorem align_cases (t : Ty) :
-    Spec.alignTable t.code = 1 ∨ Spec.alignTable t.code = 2 ∨ Spec.alignTable t.code = 4 ∨
-      Spec.alignTable t.code = 8 := by
+theorem code_mem_typeCodes (t : Ty) : t.code ∈ typeCodes := by
   cases t with
   | basic c => cases c <;> decide
   | variant => decide
-  | array _ => exact Or.inr (Or.inr (Or.inl rfl))
-  | struct _ => exact Or.inr (Or.inr (Or.inr rfl))
-  | dict _ _ => exact Or.inr (Or.inr (Or.inr rfl))
+  | array _ => simp [Ty.code, typeCodes]
+  | struct _ => simp [Ty.code, typeCodes]
+  | dict _ _ => simp [Ty.code, typeCodes]
 
-theorem alignTable_pos : AlignTable.Pos Spec.alignTable := by
+theorem genAlign_pos : AlignTable.Pos genAlign := by
   intro t
-  rcases align_cases t with h | h | h | h <;> omega
+  obtain ⟨a, h1, h2, _⟩ := genAlign_sane t.code (code_mem_typeCodes t)
+  simp [genAlign, h1, h2]
 
-/-- `pad[tcode](x)` is the padding rule of the specification, for every type code and every offset. -/
-theorem padLenOf_code (t : Ty) (x : Nat) :
-    padLenOf t.code x = .ok (padLen (Spec.alignTable t.code) x) := by
+/-- `pad[tcode]` is the padding rule for the generated table - for ANY entries between 1 and 8: the
+round trip C01 does not depend on the alignments being the specification's. -/
+theorem padOK_gen : PadOK genAlign := by
+  intro t x
+  obtain ⟨a, h1, h2, h3⟩ := genAlign_sane t.code (code_mem_typeCodes t)
   unfold padLenOf
-  rw [lookup_align]
-  simp only [Gen.Wire.maxPad, padLen]
-  rcases align_cases t with h | h | h | h <;> rw [h]
-  · simp [Nat.mod_one]
-  · by_cases h2 : x % 2 = 0
-    · simp [h2]
-    · have : 2 - x % 2 ≤ 7 := by omega
-      have h3 : (2 - x % 2) % 2 = 2 - x % 2 := by omega
-      simp [h2, this, h3]
-  · by_cases h2 : x % 4 = 0
-    · simp [h2]
-    · have : 4 - x % 4 ≤ 7 := by omega
-      have h3 : (4 - x % 4) % 4 = 4 - x % 4 := by omega
-      simp [h2, this, h3]
-  · by_cases h2 : x % 8 = 0
-    · simp [h2]
-    · have : 8 - x % 8 ≤ 7 := by omega
-      have h3 : (8 - x % 8) % 8 = 8 - x % 8 := by omega
-      simp [h2, this, h3]
-
-/-- The complete padding table of C02: for each of the 17 type codes and every offset, the number of
-padding bytes is `(A - off % A) % A` with `A` the alignment the specification gives. -/
-theorem padLenOf_spec (c : Char) (a : Nat) (h : (c, a) ∈ Gen.Wire.alignTable) (x : Nat) :
-    padLenOf c x = .ok ((a - x % a) % a) := by
-  have hall : ∀ p ∈ Gen.Wire.alignTable, (∃ t : Ty, t.code = p.1) ∧ Spec.alignTable p.1 = p.2 := by
-    intro p hp
-    obtain ⟨hc, ha⟩ := alignTable_eq_spec.2.2 p hp
-    refine ⟨?_, ha⟩
-    simp only [typeCodes, List.mem_cons, List.not_mem_nil, or_false] at hc
-    rcases hc with h | h | h | h | h | h | h | h | h | h | h | h | h | h | h | h | h <;> rw [h]
-    · exact ⟨.basic .y, rfl⟩
-    · exact ⟨.basic .b, rfl⟩
-    · exact ⟨.basic .n, rfl⟩
-    · exact ⟨.basic .q, rfl⟩
-    · exact ⟨.basic .i, rfl⟩
-    · exact ⟨.basic .u, rfl⟩
-    · exact ⟨.basic .x, rfl⟩
-    · exact ⟨.basic .t, rfl⟩
-    · exact ⟨.basic .d, rfl⟩
-    · exact ⟨.basic .s, rfl⟩
-    · exact ⟨.basic .o, rfl⟩
-    · exact ⟨.basic .g, rfl⟩
-    · exact ⟨.array (.basic .y), rfl⟩
-    · exact ⟨.struct [], rfl⟩
-    · exact ⟨.variant, rfl⟩
-    · exact ⟨.dict (.basic .y) (.basic .y), rfl⟩
-    · exact ⟨.basic .h, rfl⟩
-  obtain ⟨⟨t, ht⟩, ha⟩ := hall (c, a) h
-  simp only at ht ha
-  rw [← ht, padLenOf_code, ht, ha]
-  rfl
+  simp only [genAlign, h1, Option.getD_some, Gen.Wire.maxPad, padLen]
+  have ha : ¬ (a = 0) := by omega
+  simp only [ha, if_false]
+  have hm := Nat.mod_lt x h2
+  by_cases h0 : x % a = 0
+  · simp [h0]
+  · have h4 : a - x % a ≤ 7 := by omega
+    have h5 : (a - x % a) % a = a - x % a := Nat.mod_eq_of_lt (by omega)
+    simp [h0, h4, h5]
 
 /-! ### struct formats -/
 
